@@ -141,7 +141,9 @@ def cause(rule, what, prog, diag, fix, fixed_text):
                 return "type-before-default-specifier"
     if rule in ("no-process-global", "no-node-globals"):
         c = fix["changes"][0]
-        is_import = c["t"].lstrip("\n").startswith("import ")
+        if what == "unparsable" and c["t"] == "globalThis" and media in ("jsx", "tsx") and b[c["s"] - 1:c["s"]] in (b"<", b"/") and b[c["e"]:c["e"] + 1] == b".":
+            return "jsx-member-tag-pair"        # <global.X></global.X>: the two tag names are fixed one at a time
+        is_import = c["t"].lstrip("\n").lstrip(" ").startswith("import ")
         if what == "unparsable" and is_import and media == "cjs":
             return "import-into-commonjs"
         if what in ("not-fewer", "still-reported") and is_import:
@@ -546,8 +548,10 @@ def gen_global_like(rng, rule, names, req_of, dec):
         # does anything but white space follow the import (ending at byte m) on its line?
         pos = int(m.group(1))
         nl = final.find(b"\n", pos)
-        rest = final[pos:nl if nl >= 0 else len(final)]
-        return "1" if rest.decode("utf8", "replace").strip() else "0"
+        rest = final[pos:nl if nl >= 0 else len(final)].decode("utf8", "replace")
+        rest = re.sub(r"/\*.*?\*/", " ", rest)          # comments are not tokens
+        rest = re.sub(r"//.*$", "", rest)
+        return "1" if rest.strip() else "0"
     for s in sites:
         for r in s["reqs"]:
             r["req"] = re.sub(r"IL(\d+)", inline_flag, r["req"].replace("CS", str(cs)))
@@ -714,6 +718,9 @@ REGRESSION = [
     ("ts", "no-node-globals", "/* header */ // deno-lint-ignore\nglobal.x;\r\nBuffer.from('a');"),
     ("ts", "no-node-globals", "// deno-lint-ignore no-node-globals\n/* header */ import a from 'b'; import 'side'; x = [setImmediate, 1];\nclearImmediate;\n"),
     ("ts", "no-process-global", "// deno-lint-ignore no-process-global\nimport a from 'b'; process.exit(); // c\nprocess.env;\n"),
+    ("tsx", "no-node-globals", "<global.X></global.X>;"), ("jsx", "no-node-globals", "x = <global.A.B c={1}>t</global.A.B>;"),
+    ("ts", "no-process-global", "import a from 'a' // c\nprocess;"), ("ts", "no-node-globals", "import a from 'a'; /* c */ Buffer.from(a);\nsetImmediate(f);"),
+    ("ts", "no-node-globals", "// deno-lint-ignore no-node-globals\nimport a from 'a'; /* c */ Buffer.from(a);\nsetImmediate(f);"),
     ("ts", "no-window", "function f(globalThis) { window.fetch(); }"), ("ts", "no-window-prefix", "window.fetch(); window[\"console\"]; window[`crypto`];"),
 ]
 
